@@ -361,7 +361,7 @@ PROPS = {
         "rule": ("histories of 8-30 steps over {application ops incl. delete+incremental_vacuum, SyncAndWait, Compact(l), Snapshot, vfs-open, vfs-poll, vfs-time(T), vfs-reset}; "
                  "page sizes 512..8192, auto_vacuum none/full/incremental, L0Retention 0 or 1ns. Non-trivial = a poll or plan consumed a file whose commit is smaller than the "
                  "previous commit, or a poll ran after the level-0 files it would have read were compacted away; distinct = hash of the case."
-                 ' Also: several replicated transactions of different kinds picked up by one poll; a reader holding the SHARED lock while the poller runs (compared after unlock); polls while a time-travel view is installed (the view must not move).'),
+                 ' Also: several replicated transactions of different kinds picked up by one poll; a reader holding the SHARED lock while the poller runs (compared after unlock); polls while a time-travel view is installed (the view must not move); half of the cases give the VFS file a two-page cache so that compared pages are fetched through the page index instead of a cached copy.'),
         "assumptions": ["file replica client", "build tags verif,vfs with cgo"],
         "runs": [
             {"name": "histories", "test": "TestProp_C18", "kind": "rapid", "checks_quick": 400, "checks_thorough": 2500, "shards": 6},
